@@ -149,7 +149,14 @@ def transpose_struct_list_array(array: pa.StructArray, validate: bool = True) ->
         [field.values.slice(field.offsets[0].as_py(), values_length) for field in array.flatten()],
         names=array.type.names,
     )
-    return pa.ListArray.from_arrays(offsets, struct_flat_array)
+    # Missing (null) structs become missing lists
+    mask = None
+    if array.null_count > 0:
+        mask = array.is_null()
+        # ListArray.from_arrays() does not support a mask together with sliced offsets
+        if offsets.offset != 0:
+            offsets = pa.array(offsets.to_numpy(), type=offsets.type)
+    return pa.ListArray.from_arrays(offsets, struct_flat_array, mask=mask)
 
 
 def transpose_list_struct_type(t: pa.ListType) -> pa.StructType:
@@ -202,4 +209,6 @@ def transpose_list_struct_array(array: pa.ListArray) -> pa.StructArray:
         list_array = pa.ListArray.from_arrays(offsets, field_values)
         fields.append(list_array)
 
-    return pa.StructArray.from_arrays(fields, names=array.type.value_type.names)
+    # Missing (null) lists become missing structs
+    mask = array.is_null() if array.null_count > 0 else None
+    return pa.StructArray.from_arrays(fields, names=array.type.value_type.names, mask=mask)
